@@ -166,6 +166,9 @@ func init() {
 			row("new-foundation-address", true, func(t *types.V2Transaction) bool { a := w.advAddr(); t.NewFoundationAddress = &a; return true })
 			row("attestation-value", true, func(t *types.V2Transaction) bool { t.Attestations[0].Value[0] ^= 1; return true })
 			row("attestation-key", true, func(t *types.V2Transaction) bool { t.Attestations[0].Key = "k2"; return true })
+			// (an attestation's signature is kept in its element and hashed into the accumulator leaf: part of what the transaction does)
+			row("attestation-signature", true, func(t *types.V2Transaction) bool { t.Attestations[0].Signature[5] ^= 1; return true })
+			row("attestation-public-key", true, func(t *types.V2Transaction) bool { t.Attestations[0].PublicKey[5] ^= 1; return true })
 			row("contract-field", true, func(t *types.V2Transaction) bool { t.FileContracts[0].ExpirationHeight++; return true })
 			row("contract-renter-key", true, func(t *types.V2Transaction) bool { t.FileContracts[0].RenterPublicKey[0] ^= 1; return true })
 			row("siafund-output-address", true, func(t *types.V2Transaction) bool {
